@@ -223,6 +223,12 @@ def scenarios(f: Family) -> List[Tuple[str, List[tuple]]]:
         # G is the world cell (round 11: a filter in front of compact that keeps "ids that decode to a cell" drops it)
         out.append(("the world cell alone", [("G",)]))
         out.append(("the world cell given twice", [("G",), ("G",)]))
+        # cells of DIFFERENT faces whose ids look alike: a resolution-0 id carries the face number in the six top bits, a finer id
+        # carries 5 * face + quintant there -- face 1 / 2 and the quintants of face 0 share those values
+        for fb in (1, 2):
+            if nP > fb:
+                for j in range(len(f.C[0])):
+                    out.append((f"face {fb} together with quintant {j} of face 0 (disjoint cells)", [("P", fb), ("c", 0, j)]))
     lastP = nP - 1
     if 1 <= lastP <= 4 and all((lastP, j) in f.D for j in range(len(f.C[lastP]))):
         deep = [("d", lastP, j, m) for j in range(len(f.C[lastP])) for m in range(len(f.D[(lastP, j)]))]
